@@ -1275,20 +1275,21 @@ class Container:
                    for substance, value in source.contents.items())
         moles = sum(Unit.convert_from(substance, value, config.moles_storage_unit, 'mol') for substance, value in
                     source.contents.items() if not substance.is_enzyme())
-        volume = Unit.convert_from_storage(source.volume, 'mL')
+        # not rounded: rounding to internal precision in mL and mol would dominate for microlitre-scale stocks
+        volume = source.volume * Unit.convert_from_storage(1, 'mL')
         d_x = mass / volume
         mw_x = mass / moles
-        m_x = Unit.convert_from_storage(source.contents.get(solute, 0), 'mol') / (volume / 1000)
+        m_x = Unit.convert_from(solute, source.contents.get(solute, 0), config.moles_storage_unit, 'mol') / (volume / 1000)
 
         if isinstance(solvent, Container):
             mass = sum(Unit.convert_from(substance, value, 'U' if substance.is_enzyme() else config.moles_storage_unit, 'g')
                        for substance, value in solvent.contents.items())
             moles = sum(Unit.convert_from(substance, value, config.moles_storage_unit, 'mol') for substance, value in
                         solvent.contents.items() if not substance.is_enzyme())
-            volume = Unit.convert_from_storage(solvent.volume, 'mL')
+            volume = solvent.volume * Unit.convert_from_storage(1, 'mL')
             d_y = mass / volume
             mw_y = mass / moles
-            m_y = Unit.convert_from_storage(solvent.contents.get(solute, 0), 'mol') / (volume / 1000)
+            m_y = Unit.convert_from(solute, solvent.contents.get(solute, 0), config.moles_storage_unit, 'mol') / (volume / 1000)
         else:
             d_y = solvent.density
             mw_y = solvent.mol_weight
